@@ -13,7 +13,12 @@ import (
 // Generate builds the scenario for (property, seed).
 func Generate(prop string, seed uint64) *Scenario {
 	switch prop {
-	case "C12", "C05", "C13", "C07":
+	case "C12", "C05", "C07":
+		return GenUciSession(prop, seed)
+	case "C13":
+		if seed%3 != 0 {
+			return GenGame(prop, seed)
+		}
 		return GenUciSession(prop, seed)
 	case "C14":
 		if seed%4 == 3 {
@@ -56,6 +61,9 @@ func RunScenario(t *testing.T, sc *Scenario) *RunResult {
 			case "uci":
 				out := RunUciScript(sc)
 				finishUci(sc, out, res)
+			case "game":
+				out := RunGame(sc)
+				finishGame(sc, out, res)
 			case "api":
 				out := RunApiScript(sc)
 				finishApi(sc, out, res)
@@ -132,6 +140,50 @@ func finishApi(sc *Scenario, out *ApiRunOut, res *RunResult) {
 	res.count("results", int64(len(out.Results)))
 	if len(res.Violations) > 0 || KeepHistory {
 		b, _ := json.Marshal(map[string]interface{}{"calls": out.Calls, "results": out.Results, "final": out.Final})
+		res.Sample = b
+	}
+}
+
+func finishGame(sc *Scenario, out *GameOut, res *RunResult) {
+	sim := out.Sim
+	if res.Faults == nil {
+		res.Faults = map[string]int{}
+	}
+	CheckGame(sc, out, res)
+	// the session oracles (one bestmove per go, legal moves, playable pv) hold for games too
+	uo := &UciRunOut{Hist: out.Hist, Sim: sim}
+	sc2 := *sc
+	sc2.Checks = []string{"c05", "c12"}
+	CheckUciHistory(&sc2, uo, res)
+	checkSimCommon(sc, sim, res)
+	for k, v := range out.Faults {
+		res.Faults[k] += v
+	}
+	for k, v := range out.Probes {
+		for i := 0; i < v; i++ {
+			res.probe(k)
+		}
+	}
+	if sc.Game != nil {
+		// supplementary pure sweep of the budget function along the announced control
+		side := "w"
+		_ = side
+		if bad, n := BudgetSequenceCheck(sc.Game.StartFen, true, sc.Game.WTimeMs, sc.Game.WIncMs, sc.Game.MovesToGo); bad != "" {
+			res.addViolation("C13", "budget_exceeds_remaining", "budget sequence: "+bad)
+		} else {
+			res.count("budget_sequence_steps", int64(n))
+		}
+	}
+	res.Signature = fmt.Sprintf("%016x", out.SigHash)
+	res.NonTrivial = len(res.Faults) > 0 || res.Counters["allotted_samples"] > 0
+	res.TraceHash = sim.TraceHash()
+	res.SimNs = sim.Now()
+	res.Yields = sim.Yields
+	if out.Aborted == "slot budget" {
+		res.Harness = "slot budget exhausted"
+	}
+	if len(res.Violations) > 0 || KeepHistory {
+		b, _ := json.Marshal(map[string]interface{}{"moves": out.Moves, "aborted": out.Aborted})
 		res.Sample = b
 	}
 }
